@@ -2,24 +2,22 @@
 import os
 import random
 import re
-import subprocess
 import sys
+from fractions import Fraction
 
 import emit
-import t1
 import vlib
+from emit import Q2
+from m3 import M3, q
 
 sys.path.insert(0, os.path.join(vlib.VERIF, "checks"))
-import c05ref  # noqa: E402  (python reference used by the failing-input search only)
+import c05ref as R  # noqa: E402  (python reference used by the failing-input search only)
 
 GROUPS = ["Val", "D12", "D3dist", "D3p01", "D3p02", "D3p12", "F", "W",
           "Dec12", "Dec3full", "Dec3p01", "Dec3p02", "Dec3p12", "Dec3dist"]
-PROPS_OF = {
-    "TfelVerif.C05.Props": ["Val"],
-    "TfelVerif.C05.PropsDeriv": ["D12", "D3dist", "D3p01", "D3p02", "D3p12"],
-    "TfelVerif.C05.PropsWrap": ["F", "W"],
-    "TfelVerif.C05.PropsDec": ["Dec12", "Dec3full", "Dec3p01", "Dec3p02", "Dec3p12", "Dec3dist"],
-}
+PROPS_QUICK = ["TfelVerif.C05.Props", "TfelVerif.C05.PropsDeriv", "TfelVerif.C05.PropsWrap", "TfelVerif.C05.PropsDec"]
+PROPS_THOROUGH = PROPS_QUICK + ["TfelVerif.C05.PropsDecX"]
+SIZE = {1: 3, 2: 4, 3: 6}
 
 
 def group_of(name):
@@ -40,8 +38,9 @@ def group_of(name):
 
 def emit_groups(ck, dagtext):
     """split the dump by groups of units (one generated Lean file per group, so that lake rebuilds only what a
-    source change touched, in parallel); outputs of a unit that are the *same DAG node* as an earlier output
-    become aliases (`def U_b := U_a`) instead of a second copy of the let-chain."""
+    source change touched, in parallel); in the groups whose outputs are scalars (W, Dec*), outputs of a unit that
+    are the *same DAG node* as an earlier output become aliases (`def U_b := U_a`) instead of a second copy of
+    the let-chain."""
     blocks = re.findall(r"(unit (\S+)\n.*?end \2\n)", dagtext, re.S)
     per = {g: [] for g in GROUPS}
     aliases = {g: [] for g in GROUPS}
@@ -57,10 +56,11 @@ def emit_groups(ck, dagtext):
                     aliases[g].append((name, f[1], seen[f[2]]))
                     nalias += 1
                     continue
-                seen[f[2]] = f[1]
+                seen.setdefault(f[2], f[1])
             lines.append(line)
         per[g].append("\n".join(lines) + "\n")
-    units = {u.name: u for u in emit.parse(dagtext)}
+    units = emit.parse(dagtext)
+    byname = {u.name: u for u in units}
     for g in GROUPS:
         dag = ck.write("g_%s.dag" % g, "".join(per[g]))
         tmp = ck.path("Gen%s.lean" % g)
@@ -71,7 +71,7 @@ def emit_groups(ck, dagtext):
         txt = open(tmp).read()
         extra = []
         for (uname, out, target) in aliases[g]:
-            u = units[uname]
+            u = byname[uname]
             ins = [emit.lean_ident(x) for x in u.inputs]
             binder = "(c c3 : K) (fn : Fns K)" + (" (%s : K)" % " ".join(ins) if ins else "")
             args = "c c3 fn" + "".join(" " + x for x in ins)
@@ -85,12 +85,326 @@ def emit_groups(ck, dagtext):
     return units, nalias
 
 
+# ---------------------------------------------------------------------------------------------- references
+def make_fns(sol):
+    def fns(name, args):
+        if name == "abs":
+            return R.qabs(args[0])
+        if name == "max":
+            return R.qmax(args[0], args[1])
+        if name == "min":
+            return R.qmin(args[0], args[1])
+        if name == "log":
+            return R.fake_log(args[0])
+        if name == "sqrt":
+            return R.fake_sqrt(args[0])
+        if name == "f":
+            return R.fake_f(args[0])
+        if name == "df":
+            return R.fake_df(args[0])
+        return sol[name]
+    return fns
+
+
+def path_holds(u, val):
+    for (cmp_, a, b, res) in u.paths:
+        x, y = val[a], val[b]
+        s = R.sign(x - y)
+        r = {"lt": s < 0, "le": s <= 0, "gt": s > 0, "ge": s >= 0, "eq": s == 0, "ne": s != 0}[cmp_]
+        if r != res:
+            return False
+    return True
+
+
+def mandel_vec(rng, n):
+    """stored components of a random symmetric tensor (rational matrix entries)"""
+    v = [R.rnd(rng) for _ in range(6)]
+    A = M3.sym(*v) if n == 6 else (M3.sym(v[0], v[1], v[2], v[3]) if n == 4 else M3.sym(v[0], v[1], v[2]))
+    N = {3: 1, 4: 2, 6: 3}[n]
+    return A, A.mandel(N)
+
+
+def frob(A, B):
+    return A.frob(B)
+
+
+def reference(name, rng):
+    """(env, sol, expected outputs by name) for unit `name`; expected values are Q2"""
+    if name.startswith("abs_"):
+        x = {"abs_neg": -abs(R.rnd(rng, nonzero=True)), "abs_pos": abs(R.rnd(rng, nonzero=True)), "abs_zero": Fraction(0)}[name]
+        return {"x": q(x)}, {}, {"r": R.qabs(q(x))}
+    m = re.match(r"N(\d)_(.*)", name)
+    N, r = int(m.group(1)), m.group(2)
+    n = SIZE[N]
+    Mraw = R.rnd_matrix(rng)
+    if N == 2:
+        Mraw = R.m2(Mraw)
+    Meff = Mraw if N == 3 else (R.m2(Mraw) if N == 2 else M3.one())
+    env = R.m_env(Mraw)
+    sol = {}
+    exp = {}
+
+    def put_vec(prefix, vec):
+        for i, x in enumerate(vec):
+            exp["%s%d" % (prefix, i)] = x
+
+    if r == "isofun_values":
+        f = [q(R.rnd(rng)) for _ in range(3)]
+        env.update({"f%d" % i: f[i] for i in range(3)})
+        put_vec("r", R.iso(Meff, f).mandel(N))
+        return env, sol, exp
+    l = R.spectrum(rng, "dist")
+    if r in ("isofun_fn", "build_log", "build_pos_neg"):
+        env.update({"l%d" % i: l[i] for i in range(3)})
+        if r == "isofun_fn":
+            put_vec("r", R.iso(Meff, [R.fake_f(x) for x in l]).mandel(N))
+        elif r == "build_log":
+            v = R.iso(Meff, [R.fake_log(x) for x in l]).mandel(N)
+            put_vec("r", v)
+            put_vec("q", v)
+        else:
+            p = R.iso(Meff, [R.qmax(R.ZERO, x) for x in l]).mandel(N)
+            ng = R.iso(Meff, [R.qmin(R.ZERO, x) for x in l]).mandel(N)
+            put_vec("p", p)
+            put_vec("n", ng)
+            put_vec("pp", p)
+            put_vec("nn", ng)
+        return env, sol, exp
+    if r == "eigentensors":
+        for k, pre in enumerate("abe"):
+            v = [Meff.a[i][k] for i in range(3)]
+            put_vec(pre, M3.outer(v, v).mandel(N))
+        return env, sol, exp
+    # ---- units with the stub solver: inputs s (any numbers), solver result chosen here
+    if r.startswith("w_") and not r.startswith("w_d_"):
+        env = {"s%d" % i: q(R.rnd(rng)) for i in range(n)}
+        Ms = R.rnd_matrix(rng)
+        if N == 2:
+            Ms = R.m2(Ms)
+        if N == 1:
+            Ms = M3.one()
+            l = [env["s0"], env["s1"], env["s2"]]
+        sol = dict(R.m_env(Ms))
+        sol.update({"vp%d" % i: l[i] for i in range(3)})
+        g = {"w_logarithm": R.fake_log, "w_absolute_value": R.qabs, "w_positive_part": lambda x: R.qmax(x, R.ZERO),
+             "w_negative_part": lambda x: R.qmin(x, R.ZERO), "w_square_root": R.fake_sqrt,
+             "w_isofun_member": R.fake_f, "w_isofun_free": R.fake_f}[r]
+        put_vec("r", R.iso(Ms, [g(x) for x in l]).mandel(N))
+        return env, sol, exp
+    eps = q(R.EPS)
+    if r.startswith(("dval_", "dfun_", "w_d_")):
+        pat = r.split("_")[-1]
+        l = R.spectrum(rng, {"dist": "dist2" if N == 2 else "dist", "any": "dist"}.get(pat, pat))
+        if r.startswith("dval_"):
+            f = [q(R.rnd(rng)) for _ in range(3)]
+            g = [q(R.rnd(rng)) for _ in range(3)]
+            env.update({"l%d" % i: l[i] for i in range(3)})
+            env.update({"f%d" % i: f[i] for i in range(3)})
+            env.update({"g%d" % i: g[i] for i in range(3)})
+            env["eps"] = eps
+            tab = R.table(N, R.deriv_action(N, pat, Meff, l, f, g))
+            for i in range(n):
+                for j in range(n):
+                    exp["d%d_%d" % (i, j)] = tab[i * n + j]
+            return env, sol, exp
+        f = [R.fake_f(x) for x in l]
+        g = [R.fake_df(x) for x in l]
+        H, hv = mandel_vec(rng, n)
+        G, gv = mandel_vec(rng, n)
+        if r.startswith("dfun_"):
+            env.update({"l%d" % i: l[i] for i in range(3)})
+            M_used = Meff
+        else:
+            env = {"s%d" % i: q(R.rnd(rng)) for i in range(n)}
+            Ms = R.rnd_matrix(rng)
+            if N == 2:
+                Ms = R.m2(Ms)
+            if N == 1:
+                Ms = M3.one()
+                l = [env["s0"], env["s1"], env["s2"]]
+                f = [R.fake_f(x) for x in l]
+                g = [R.fake_df(x) for x in l]
+            sol = dict(R.m_env(Ms))
+            sol.update({"vp%d" % i: l[i] for i in range(3)})
+            M_used = Ms
+        env["eps"] = eps
+        env.update({"h%d" % i: hv[i] for i in range(n)})
+        env.update({"g%d" % i: gv[i] for i in range(n)})
+        a = frob(G, R.deriv_action(N, pat, M_used, l, f, g)(H))
+        exp["a"] = a
+        if r.startswith("w_d_"):
+            v = frob(G, R.iso(M_used, f))
+            exp.update({"v": v, "b": a, "fa": a, "fv": v, "fb": a})
+        return env, sol, exp
+    if r.startswith("dec_"):
+        pname = r[4:]
+        l = R.dec_spectrum(rng, N, pname)
+        H, hv = mandel_vec(rng, n)
+        G, gv = mandel_vec(rng, n)
+        if N == 1:
+            env = {"s%d" % i: l[i] for i in range(3)}
+            Ms = M3.one()
+            S = M3.diag(*l)
+        else:
+            Ms = R.rnd_orth(rng, two_d=(N == 2))
+            S = R.iso(Ms, l)
+            sv = S.mandel(N)
+            env = {"s%d" % i: sv[i] for i in range(n)}
+            sol = dict(R.m_env(Ms))
+            sol.update({"vp%d" % i: l[i] for i in range(3)})
+        env["eps"] = eps
+        env.update({"h%d" % i: hv[i] for i in range(n)})
+        env.update({"g%d" % i: gv[i] for i in range(n)})
+        for positive, ka, kp in ((True, "a", "p"), (False, "b", "n")):
+            T, vals, br = R.dec_theta_vals(N, l, eps, positive)
+            if br.startswith("full"):
+                exp[ka] = frob(G, H * T.a[0][0])
+                exp[kp] = frob(G, S) if br.endswith("_s") else R.ZERO
+            else:
+                exp[ka] = frob(G, R.dk_act(Ms, T, H))
+                exp[kp] = frob(G, R.iso(Ms, vals))
+        exp["qa"] = exp["a"]
+        exp["qp"] = exp["p"]
+        meta = {"N": N, "eps": float(R.EPS), "s": [float(env["s%d" % i]) for i in range(n)],
+                "eigenvalues": [float(x) for x in l], "h": [float(x) for x in hv], "g": [float(x) for x in gv],
+                "expected": {k: float(v) for k, v in exp.items()}}
+        return env, sol, exp, meta
+    raise KeyError(name)
+
+
+def search(ck, units, rng, tracer, replay_bin, trials):
+    """exact evaluation of every traced unit against the reference at seeded random points satisfying the unit's
+    own path condition; a mismatch is replayed on the real code in double precision"""
+    found = []
+    stats = {"units_evaluated": 0, "points": 0, "path_mismatch_skipped": 0, "division_by_zero_skipped": 0,
+             "outputs_compared": 0, "per_group": {}}
+    for u in units:
+        stats["units_evaluated"] += 1
+        grp = group_of(u.name)
+        for _ in range(trials):
+            try:
+                ref = reference(u.name, rng)
+            except (ZeroDivisionError, RuntimeError):
+                stats["division_by_zero_skipped"] += 1
+                continue
+            env, sol, exp = ref[0], ref[1], ref[2]
+            meta = ref[3] if len(ref) > 3 else None
+            try:
+                val = emit.evaluate(u, env, make_fns(sol))
+            except ZeroDivisionError:
+                stats["division_by_zero_skipped"] += 1
+                continue
+            if not path_holds(u, val):
+                stats["path_mismatch_skipped"] += 1
+                continue
+            stats["points"] += 1
+            stats["per_group"][grp] = stats["per_group"].get(grp, 0) + 1
+            bad = None
+            for (oname, node) in u.outs:
+                if oname not in exp or exp[oname] is None:
+                    continue
+                stats["outputs_compared"] += 1
+                if not (val[node] == exp[oname]):
+                    bad = (oname, val[node], exp[oname])
+                    break
+            if bad:
+                rep = {"unit": u.name, "output": bad[0],
+                       "inputs_exact": {k: repr(v) for k, v in env.items()},
+                       "solver_result_exact": {k: repr(v) for k, v in sol.items()},
+                       "code_value_exact": repr(bad[1]), "spec_value_exact": repr(bad[2]),
+                       "code_value": float(bad[1]), "spec_value": float(bad[2])}
+                # (1) the instantiated real code in double precision at this input (shadow replay of the tracer)
+                sh = "".join("%s %s %.17g\n" % (u.name, k, float(v)) for k, v in list(env.items()) + list(sol.items()))
+                shp = ck.write("shadow_%s.txt" % u.name, sh)
+                try:
+                    p = ck.run([tracer], env={"VERIF_SHADOW": shp}, timeout=600)
+                    mm = re.search(r"unit %s\n(.*?)end %s\n" % (re.escape(u.name), re.escape(u.name)), p.stdout, re.S)
+                    if mm:
+                        shn, outs = {}, {}
+                        for line in mm.group(1).splitlines():
+                            f = line.split()
+                            if f[0] == "n":
+                                shn[int(f[1])] = float(line.split(";")[1])
+                            elif f[0] == "out":
+                                outs[f[1]] = int(f[2])
+                        rep["real_code_double_result"] = shn.get(outs.get(bad[0]))
+                except Exception as e:  # support only
+                    rep["replay_error"] = repr(e)
+                # (2) decomposition units: the shipped function with the real eigen-solver on s = M diag(l) M^T
+                if meta and replay_bin and meta["N"] > 1:
+                    rep["real_solver_replay"] = real_replay(ck, replay_bin, meta)
+                found.append(rep)
+                break
+    return found, stats
+
+
+def real_replay(ck, replay_bin, meta):
+    line = "dec %d %.17g %s %s %s\n" % (meta["N"], meta["eps"], " ".join("%.17g" % x for x in meta["s"]),
+                                        " ".join("%.17g" % x for x in meta["h"]), " ".join("%.17g" % x for x in meta["g"]))
+    try:
+        p = ck.run([replay_bin], input=line, timeout=60)
+        got = dict(zip(["a", "b", "p", "n", "qa", "qp"], [float(x) for x in p.stdout.split()]))
+        worst = max(abs(got[k] - meta["expected"][k]) for k in got)
+        return {"input_line": line.strip(), "real_code": got, "expected": meta["expected"],
+                "eigenvalues": meta["eigenvalues"], "max_abs_difference": worst}
+    except Exception as e:  # support only
+        return {"error": repr(e)}
+
+
 def run(ck):
     tracer = ck.cxx("c05trace", ["C05/trace.cxx", "C05/trace_abs.cxx",
                                  vlib.REPO + "/src/Exception/ContractViolation.cxx"], opt="-O0")
+    replay_bin = ck.cxx("c05replay", ["C05/replay.cxx", vlib.REPO + "/src/Exception/ContractViolation.cxx"], opt="-O1")
     p = ck.run([tracer], timeout=600)
     if p.returncode != 0:
         raise vlib.BuildError("tracer c05trace failed on the current tree (value dependent branch on a symbol outside "
                               "concolic mode, contract violation or crash)", p.stdout[-800:] + p.stderr[-3000:])
     units, nalias = emit_groups(ck, p.stdout)
-    return 0
+    props = PROPS_QUICK if ck.quick else PROPS_THOROUGH
+    res = ck.lean(props, props)
+    rng = random.Random(ck.seed)
+    trials = 3 if ck.quick else 25
+    found, stats = search(ck, units, rng, tracer, replay_bin, trials)
+    by_unit = {f["unit"]: f for f in found}
+    reported = set()
+    if not res.ok:
+        def find(fl):
+            thm = (fl.get("theorem") or "")
+            base = re.sub(r"_(table|dk|meaning|path_iff)$", "", thm)
+            cands = [u for u in by_unit if u == base or u.startswith(base + "_") or base.startswith(u)]
+            # theorem names drop the unit-kind infix for wrappers: N3_positive_part <-> N3_w_positive_part
+            cands += [u for u in by_unit if u.replace("_w_", "_") == base]
+            if cands:
+                reported.add(cands[0])
+                return by_unit[cands[0]]
+            return None
+        ck.lean_violations(res, find)
+    # units whose exact evaluation disagrees with the reference and which no failed theorem accounted for: either a
+    # pattern without a Lean theorem (decomposition, see PropsDec.lean) or a broken reference
+    for f in found:
+        if f["unit"] in reported:
+            continue
+        ck.violation("unit:" + f["unit"],
+                     "traced unit %s (real code instantiated on the recording scalar) disagrees with the property's reference "
+                     "at an exact input: output %s = %s, expected %s" % (f["unit"], f["output"], f["code_value_exact"], f["spec_value_exact"]),
+                     f, True)
+    if ck.tier == "thorough" and res.ok:
+        for m, log in ck.leanchecker(props):
+            ck.violation("leanchecker:" + m, "leanchecker rejects " + m, {"log": log}, False)
+    ck.assumptions += [
+        "T1: g++ instantiating TFEL with verif::Sym performs the same scalar operations as with double; sym.hxx/glue.hxx/emit.py are correct",
+        "exact field semantics: rounding, overflow, underflow not modelled; log/sqrt/f/f' are uninterpreted symbols",
+        "concolic mode: one trace per branch pattern of the eps tests; the *_paths_cover theorems show the traced patterns are exhaustive for computeIsotropicFunctionDerivative; for DecompositionInPositiveAndNegativeParts only the traced patterns are covered (statement coverage of the file, not all combinations)",
+        "harness/C05/trace.cxx replaces std::max/std::min/tfel::math::abs on the recording scalar by max/min/abs nodes (abs itself is traced and proved on both paths) and the default eigen-solver by uninterpreted results (what the solver returns is property C03)",
+        "outputs that are the same DAG node of a trace are emitted as aliases (checks/C05.py emit_groups)",
+        "general smooth f (Daleckii–Krein theorem) is not proved: only that the code computes the Daleckii–Krein form, and that this form is the derivative for f = x^2, x^3",
+    ]
+    return ck.finish({
+        "units_traced": len(units), "outputs_traced": sum(len(u.outs) for u in units),
+        "dag_nodes": sum(len(u.order) for u in units), "aliased_outputs": nalias,
+        "branch_patterns": sorted(u.name for u in units if u.paths),
+        "evaluations": stats["points"], "distinct_nontrivial": stats["points"],
+        "rule": "each traced unit evaluated exactly over Q(sqrt2) at seeded random rational inputs satisfying the unit's own recorded path condition, compared with an independent python reference (checks/c05ref.py); distinct = points (random rationals)",
+        "search_stats": stats,
+        "samples": [{"unit": u.name, "inputs": u.inputs[:12], "outputs": [o for o, _ in u.outs][:8], "path_conditions": len(u.paths)} for u in units[:4]],
+    })
